@@ -262,6 +262,9 @@ func judge(c Case, o obs) verdict {
 		return verdict{Kind: kind, Clause: "reply-opt-count", Desc: fmt.Sprintf("reply carries %d OPT records (+%d outside the additional section), client query had %d", n, other, want)}
 	}
 	if ropt != nil {
+		if z := ropt.Hdr.Ttl & 0x7FFF; z != 0 {
+			return verdict{Kind: kind, Clause: "reply-reserved-flags", Desc: fmt.Sprintf("the reply OPT has reserved EDNS flag bits set (%#04x); only DO is mirrored from the client (client flags %#04x), the OPT is otherwise fresh", z, clientOpt.Hdr.Ttl&0xFFFF)}
+		}
 		if ropt.Do() != clientOpt.Do() {
 			return verdict{Kind: kind, Clause: "reply-do", Desc: fmt.Sprintf("client DO=%v, reply DO=%v", clientOpt.Do(), ropt.Do())}
 		}
@@ -470,6 +473,14 @@ func TestVerifC15(t *testing.T) {
 					clients = append(clients, q)
 				}
 			}
+		}
+	}
+	// reserved flag bits next to DO (bit 14 is used by newer stubs, the rest is garbage a client may send)
+	for _, z := range []uint16{0x4000, 0x0001, 0x7FFF} {
+		for _, do := range []bool{false, true} {
+			q := base
+			q.Opt, q.DO, q.ZBits = 4096, do, z
+			clients = append(clients, q)
 		}
 	}
 	// a malformed client query with two OPT records (the first one carrying options): whatever
